@@ -16,6 +16,9 @@ inductive WN : List Ev → Prop where
   | apply (h id) : WN h → WN (h ++ [.applyInverse id])
   | block (a b kw) : WN a → WN b → WN (a ++ [.enter kw] ++ b ++ [.exit])
   | blockExc (a b kw) : WN a → WN b → WN (a ++ [.enter kw] ++ b ++ [.exitExc])
+  | mkc (h id kw) : WN h → WN (h ++ [.mkConfig id kw])
+  | blockObj (a b id) : WN a → WN b → WN (a ++ [.enterObj id] ++ b ++ [.exit])
+  | blockObjExc (a b id) : WN a → WN b → WN (a ++ [.enterObj id] ++ b ++ [.exitExc])
 
 theorem run_append (s : State) (a b : List Ev) : run s (a ++ b) = run (run s a) b := by
   simp [run, List.foldl_append]
@@ -28,6 +31,14 @@ theorem step_exit_after_enter (s : State) (kw : Kw) (t : State)
     (step t .exitExc).1.cur = s.cur ∧ (step t .exitExc).1.tokens = s.tokens := by
   simp only [step] at h1
   simp [step, h1]
+
+theorem step_exit_after_enterObj (s : State) (id : Nat) (t : State)
+    (h1 : t.tokens = (step s (.enterObj id)).1.tokens) :
+    (step t .exit).1.cur = s.cur ∧ (step t .exit).1.tokens = s.tokens ∧
+    (step t .exitExc).1.cur = s.cur ∧ (step t .exitExc).1.tokens = s.tokens := by
+  have ht : t.tokens = s.cur :: s.tokens := by
+    rw [h1]; simp only [step]; split <;> rfl
+  simp [step, ht]
 
 /-- **Leaving a block — normally or through an exception — restores exactly the configuration (and the
 stack of open blocks) that was active before it**, for every properly nested body. -/
@@ -55,6 +66,21 @@ theorem wn_restores (h : List Ev) (hw : WN h) :
     obtain ⟨ha1, ha2⟩ := iha s
     obtain ⟨_, hb2⟩ := ihb (step (run s a) (.enter kw)).1
     obtain ⟨_, _, r1, r2⟩ := step_exit_after_enter (run s a) kw _ hb2
+    exact ⟨r1.trans ha1, r2.trans ha2⟩
+  | mkc h id kw _ ih => intro s; rw [run_append, run_single]; exact ih s
+  | blockObj a b id _ _ iha ihb =>
+    intro s
+    rw [run_append, run_append, run_append, run_single, run_single]
+    obtain ⟨ha1, ha2⟩ := iha s
+    obtain ⟨_, hb2⟩ := ihb (step (run s a) (.enterObj id)).1
+    obtain ⟨r1, r2, _, _⟩ := step_exit_after_enterObj (run s a) id _ hb2
+    exact ⟨r1.trans ha1, r2.trans ha2⟩
+  | blockObjExc a b id _ _ iha ihb =>
+    intro s
+    rw [run_append, run_append, run_append, run_single, run_single]
+    obtain ⟨ha1, ha2⟩ := iha s
+    obtain ⟨_, hb2⟩ := ihb (step (run s a) (.enterObj id)).1
+    obtain ⟨_, _, r1, r2⟩ := step_exit_after_enterObj (run s a) id _ hb2
     exact ⟨r1.trans ha1, r2.trans ha2⟩
 
 /-- a properly nested program ends with the defaults -/
@@ -153,6 +179,8 @@ theorem inverse_keeps_creation_config (s : State) (id : Nat) (later : List Ev)
           simp [this, h]
         | applyInverse id' => simp only [step]; split <;> simpa using h
         | read => simpa [step] using h
+        | mkConfig id' kw => simpa [step] using h
+        | enterObj id' => simp only [step]; split <;> simpa using h
   apply key later _ hfresh
   simp [step]
 
@@ -176,6 +204,43 @@ theorem thread_isolation (evs : List (Nat × Ev)) (w : World) (c : Nat) :
     · simp only [List.filter_cons, hc, decide_true, if_true, List.map_cons, run, List.foldl_cons, stepWorld]
     · have hc' : ¬ c = ce.1 := fun h => hc h.symm
       simp only [List.filter_cons, hc, decide_false, Bool.false_eq_true, if_false, stepWorld, hc']
+
+/-! ### `Config` objects built ahead of time and entered later -/
+
+/-- **A `Config` object installs the settings computed when it was BUILT** (`replace(current, **kw)` at construction
+time), whatever is active when it is entered, however many blocks are entered or left, inverses created or other
+objects built in between — and, by `wn_restores`, leaving its block restores what was active at ENTRY (not at
+construction). -/
+theorem prebuilt_config_installs_construction_settings (s : State) (id : Nat) (kw : Kw) (later : List Ev)
+    (hfresh : ∀ e ∈ later, ∀ kw', e ≠ .mkConfig id kw') :
+    (step (run (step s (.mkConfig id kw)).1 later) (.enterObj id)).2 = .cfg (override s.cur kw) ∧
+    (step (run (step s (.mkConfig id kw)).1 later) (.enterObj id)).1.cur = override s.cur kw := by
+  have key : ∀ (evs : List Ev) (st : State), (∀ e ∈ evs, ∀ kw', e ≠ .mkConfig id kw') →
+      st.objects.lookup id = some (override s.cur kw) →
+      (run st evs).objects.lookup id = some (override s.cur kw) := by
+    intro evs
+    induction evs with
+    | nil => intro st _ h; exact h
+    | cons e es ih =>
+      intro st hne h
+      simp only [run, List.foldl_cons]
+      apply ih
+      · intro e' he'; exact hne e' (List.mem_cons_of_mem _ he')
+      · have hne' := hne e List.mem_cons_self
+        cases e with
+        | enter kw'' => simpa [step] using h
+        | exit => simp only [step]; split <;> simpa using h
+        | exitExc => simp only [step]; split <;> simpa using h
+        | mkInverse id' => simpa [step] using h
+        | applyInverse id' => simp only [step]; split <;> simpa using h
+        | read => simpa [step] using h
+        | mkConfig id' kw'' =>
+          have hid : id' ≠ id := by intro hh; subst hh; exact hne' kw'' rfl
+          have hb : (id == id') = false := by simpa using fun hh : id = id' => hid hh.symm
+          simp [step, List.lookup_cons, hb, h]
+        | enterObj id' => simp only [step]; split <;> simpa using h
+  have hl := key later (step s (.mkConfig id kw)).1 hfresh (by simp [step])
+  constructor <;> (simp only [step] at hl ⊢; rw [hl])
 
 /-! ### under `jax.jit`: traces are keyed on the captured configuration -/
 
